@@ -133,13 +133,10 @@ func checkC03(p *Prog, r *Report) {
 	if nil != pout.Parent() {
 		rOrd.Bad(fnName(pout)+":own-goroutine", pout.Pos(), "Plain lines are sent from a nested function, not from the proxy's own frame: chunks can overtake each other and the close notice")
 	}
-	top := pout
-	for nil != top.Parent() {
-		top = top.Parent()
-	}
+	top := proxyRoot(pout)
 	rAnch.OK(fnName(top), top.Pos(), "output proxy")
 	r.Saw("func " + fnName(top))
-	rdP := ioParam(top, "Reader")
+	rdP := ioOperand(top, "Reader")
 	if nil == rdP {
 		rAnch.Unproven(fnName(top)+":reader", top.Pos(), "no io.Reader parameter")
 		return
@@ -154,7 +151,7 @@ func checkC03(p *Prog, r *Report) {
 			if !ok || !c.Common().IsInvoke() || "Read" != c.Common().Method.Name() {
 				return
 			}
-			if resolveCell(c.Common().Value) == ssa.Value(rdP) {
+			if resolveCell(c.Common().Value) == rdP {
 				rfn, read = f, c
 			}
 		})
@@ -582,6 +579,42 @@ func checkC03Sink(p *Prog, r *Report, ru *Rule) {
 	}
 	r.Saw("func " + fnName(ho))
 	r.Saw("func " + fnName(wp))
+	if wp == ho {
+		/* The plain write is written out in handleOutput itself: under the
+		Plain test, the terminal receives cl.Line. */
+		n := 0
+		for _, f := range withAnons(ho) {
+			eachInstr(f, func(i ssa.Instruction) {
+				c, ok := i.(*ssa.Call)
+				if !ok {
+					return
+				}
+				var arg ssa.Value
+				switch calleeName(c.Common()) {
+				case "io.WriteString":
+					arg = c.Common().Args[1]
+				case "(*github.com/magisterquis/goxterm.Terminal).Write", "(io.Writer).Write":
+					arg = stripConv(c.Common().Args[len(c.Common().Args)-1], true)
+				default:
+					return
+				}
+				guard := guardingFieldTestTrue(ho, c, plainF)
+				if nil == guard {
+					return /* not the plain path (the formatted path writes through Logf) */
+				}
+				n++
+				if fv, _ := loadedField(stripConv(resolveCell(arg), false)); fv == lineF {
+					ru.OK(fnName(ho)+":plain→terminal", posOf(c), "under cl.Plain the terminal is written cl.Line itself")
+				} else {
+					ru.Bad(fnName(ho)+":plain→terminal", posOf(c), "under cl.Plain the terminal receives %s, not cl.Line itself", describeValue(arg))
+				}
+			})
+		}
+		if 0 == n {
+			ru.Unproven(fnName(ho)+":plain→terminal", ho.Pos(), "no terminal write selected by cl.Plain found")
+		}
+		return
+	}
 	/* handleOutput: on the Plain edge, writePlain(cl.Line). */
 	var call *ssa.Call
 	eachInstr(ho, func(i ssa.Instruction) {
